@@ -277,6 +277,15 @@ int main(int argc, char** argv)
     // number of total buckets (including in the simulation empty ones)
     const uint32_t nbunches = bunches.size();
 
+    /* The field objects get one bucket number per filled bucket and
+     * a phase space holds at least one bunch.
+     */
+    if (nbunches == 0) {
+        Display::printText("At least one bunch current has to be positive. "
+                           "Will now quit.");
+        return EXIT_SUCCESS;
+    }
+
     // accumulated beam current
     const double Ib = std::accumulate(bunches.begin(),bunches.end(),0.0);
 
